@@ -4,7 +4,7 @@ ENGINES = [
 ]
 NOTES = "All checks: ./run.sh <id> quick|thorough rebuilds the harness against /repo's working tree (replace directive) and rewrites evidence/<id>.json. known_findings.json is read-only at run time."
 NOT_YET = {}
-ENGINES.append({"name": "E2-regen", "path": "/verif/internal/regen, /verif/drivers", "serves_properties": ["C03", "C05", "C14", "C20"],
+ENGINES.append({"name": "E2-regen", "path": "/verif/internal/regen, /verif/drivers", "serves_properties": ["C03", "C05", "C09", "C14", "C20"],
      "kind_free_text": "regenerate-compile-drive pipeline: specs are generated in process by the generator of the tree under check into a scratch module, compiled with a driver and every case of the bounded space is executed on the regenerated code"})
 CHECKS["C12"] = dict(
     category="exploration", engine="E1-enum",
@@ -70,4 +70,11 @@ CHECKS["C03"] = dict(
     technique="bounded-exhaustive enumeration of a schema grammar x a universal instance pool on a regenerated server against a reference validator (cross-checked with python jsonschema)",
     text="328 (quick) / ~850 (thorough, depth 3) schemas from the supported keyword fragment are regenerated as JSON-body operations (every leaf schema also as query, path and header parameter) of one server; the full product with a ~190-instance pool (values around every bound, length and pattern used, arrays 0-3 with duplicates, objects over the member names used, recursion, discriminator documents) is posted: 5.7e4 / 1.7e5 requests. Reference verdict valid <=> the request reaches the handler (501 + middleware ran); invalid => 4xx and no handler. The reference validator's verdicts are cross-checked on every unambiguous body pair with python jsonschema Draft4 (+ nullable rewrite).",
     note="Trusted: drivers/refval (exact rationals). Outside the oracle and counted: 1.0 for integer, numbers beyond 2^53, non-dyadic multipleOf, 1 vs 1.0 duplicates, instances carrying members unique to several oneOf variants, discriminator documents on which OpenAPI mapping semantics and plain oneOf differ, integer+number sums, ParseBool spellings of booleans in text parameters. Python disagrees with the reference only on `$` before a trailing newline (Python regex semantics).",
+)
+
+CHECKS["C09"] = dict(
+    category="exploration", engine="E2-regen",
+    technique="complete enumeration of requirement structures over <= 3 schemes x all 4^n credential outcome vectors on a regenerated server against an OR-of-AND model; credential equality through the regenerated client",
+    text="One regenerated client+server with 274 operations: all 255 non-empty sets of alternatives over three apiKey schemes (header, query, cookie), five operations over 20 schemes whose alternatives straddle bitmask indices 7/8 and 15/16, `security: []`, an operation inheriting the global requirement, and 12 operations over basic, bearer, oauth2 (three scope sets) and mixed kinds. Every operation is driven with all 4^n vectors over {absent, accepted, skipped, hard-rejected} (wide ones: one-hot / all-but-one on three backgrounds and all boundary triples): handler invoked <=> model, otherwise 401; the SecurityHandler sees exactly the presented credential, the right operation name and the operation's oauth2 scopes. Through the generated client, 16 credential values per scheme kind must arrive unchanged.",
+    note="A hard reject (non-skip error) aborts with 401 even if another alternative is satisfied: treated as the documented contract of ErrSkipServerSecurity and counted (hard_reject_vectors_with_satisfied_alternative), see DESIGN.md C09. One known finding: apiKey in cookie is not escaped. More than 3 schemes are not exhaustive (structured vectors).",
 )
